@@ -55,8 +55,8 @@ ALL = {
             "slot is never re-serialised as valid; header parsing is total on arbitrary 320 bytes and file length and an accepted layout "
             "spans exactly the file; leaf/branch checksum functions are total on arbitrary pages; top-down verification "
             "(RawBtree::verify_checksum) of a single-page tree with arbitrary page contents returns true only if the page's checksum "
-            "can be computed and equals the stored one. Trees of depth >= 2 (that EVERY child of a branch is visited) did not close "
-            "and are NOT claimed (DESIGN.md 9.1, 9.4).",
+            "can be computed and equals the stored one; on a two-level tree (concrete page bytes, arbitrary computed checksums) it returns "
+            "true iff the root and EVERY child - the last included - match the checksums stored for them.",
             NOTE_COMMON + " Injective-checksum assumption as C01."),
     "C14": ("DESIGN.md 4 C14, 9.3",
             "Decided directly for the buddy allocator and its bitmaps: one inductive step of alloc, free, record_alloc, resize, new and the "
